@@ -345,7 +345,12 @@ def sc_gof_multi(cx, keys, shared, multi_constraint, n=2):
         cx.eq(tag + ":goodness_of_fit==documented", mf.goodness_of_fit, want)
     if all(pb.ftype in ("xy", "indexed") for pb in mu.members):
         del _CDF_CALLS[:]
-        mf.chi2_probability
+        prob = mf.chi2_probability
+        if not cx.symbolic:
+            from scipy.stats import chi2
+
+            if mf.ndf > 0:
+                cx.eq(tag + ":chi2_probability", prob, 1.0 - float(chi2.cdf(float(want), mf.ndf)))
         if cx.symbolic:
             cx.concrete(tag + ":chi2-cdf-was-called", len(_CDF_CALLS) == 1)
             if _CDF_CALLS:
@@ -425,7 +430,7 @@ def scenarios(tier, seed):
                             continue
                         S.append(Scenario("ndf-multi/%s/shared-%s/multi-constraint-%s/member-constraint-%s/fix-%s" % ("-".join(map(str, members)), shared, mc, memc, fix), sc_ndf_multi, family="ndf/multi",
                                           params=dict(members=members, shared_par=shared, multi_constraint=mc, member_constraint=memc, fix=fix)))
-    for keys, shared, n in ((["xyab", "xybc-k"], False, 2), (["xyab", "xybc-k"], True, 1), (["xyab", "idba"], True, 1), (["idab", "hist"], False, 2), (["xyab", "xybc-k", "idba"], False, 2)):
+    for keys, shared, n in ((["xyab", "xybc-k"], False, 2), (["xyab", "xybc-k"], True, 1), (["xyab", "idba"], True, 1), (["idab", "hist"], False, 2), (["xyab", "xybc-k", "idba"], False, 2), (["xyab", "xybc-k", "idba"], True, 1)):
         for mc in (False, True):
             S.append(Scenario("gof-multi/%s/shared-%s/multi-constraint-%s/n%d" % ("+".join(keys), shared, mc, n), sc_gof_multi, family="gof/multi", params=dict(keys=keys, shared=shared, multi_constraint=mc, n=n)))
     S.append(Scenario("twin/gof-with-determinant", sc_twin_gof_with_det, twin=True))
